@@ -77,3 +77,12 @@ Theorem C15_forbidden_only_from_lookup : forall (w : world) prog m n tr,
     requested w st1 o = Some (m, n) /\ ~ In (dotted m n) (allow w) /\ tr = rev (trace st1).
 Proof. intros w prog m n tr H. exact (forbidden_only_from_lookup w prog (init w) m n tr H). Qed.
 Print Assumptions C15_forbidden_only_from_lookup.
+
+(* conversely: every dump of a well-formed payload whose class objects are on
+   the built-in allow-list loads in the default process - no ForbiddenModule,
+   no other error - and yields the payload (corollary of C14_pickle_roundtrip) *)
+From DD Require Import Pickle.Codec Pickle.CodecProofs.
+Theorem C15_own_dumps_load : forall d : pv, wfp d = true -> types_default_b d = true ->
+  exists o tr, vm_run default_world (enc_prog d) = (Done o, tr) /\ decode o = Some d.
+Proof. exact own_dumps_load. Qed.
+Print Assumptions C15_own_dumps_load.
